@@ -326,6 +326,7 @@ impl CodeInfoResponse {
 }
 impl Serialize for ContractInfoResponse {}
 impl Serialize for CodeInfoResponse {}
+impl Serialize for Empty {}
 impl Serialize for AllBalanceResponse {}
 impl Serialize for BalanceResponse {}
 impl Serialize for SupplyResponse {}
